@@ -133,21 +133,7 @@ class RenderContext:
             obj = self.scope[root]
         except (KeyError, TypeError, IndexError):
             if default == UNDEFINED:
-                if isinstance(root, str):
-                    hint = f"{root!r} is undefined"
-                else:
-                    # The value of a nested path. Show what the template would
-                    # output for it, not its `repr`.
-                    from .stringify import to_liquid_string
-
-                    try:
-                        root = to_liquid_string(root)
-                    except LiquidValueError:
-                        # An integer with more digits than the interpreter will
-                        # display.
-                        root = f"<{root.__class__.__name__}>"
-                    hint = f"{root} is undefined"
-                return self.env.undefined(root, hint=hint, token=token)
+                return self._undefined_root(root, token)
             return default
 
         for i, segment in enumerate(it):
@@ -165,6 +151,22 @@ class RenderContext:
                 return default
 
         return obj
+
+    def _undefined_root(self, root: object, token: TokenT | None) -> object:
+        if isinstance(root, str):
+            hint = f"{root!r} is undefined"
+        else:
+            # The value of a nested path. Show what the template would output for
+            # it, not its `repr`.
+            from .stringify import to_liquid_string
+
+            try:
+                root = to_liquid_string(root)
+            except LiquidValueError:
+                # An integer with more digits than the interpreter will display.
+                root = f"<{root.__class__.__name__}>"
+            hint = f"{root} is undefined"
+        return self.env.undefined(root, hint=hint, token=token)
 
     async def get_async(
         self,
@@ -184,8 +186,7 @@ class RenderContext:
             obj = self.scope[root]
         except (KeyError, TypeError, IndexError):
             if default == UNDEFINED:
-                hint = f"{root!r} is undefined"
-                return self.env.undefined(root, hint=hint, token=token)
+                return self._undefined_root(root, token)
             return default
 
         for i, segment in enumerate(it):
